@@ -2,6 +2,7 @@
    Model: read_file, read_file_vol (par2/file.go readFile, on the index file and on a recovery file),
    new_decoder, load_parity, parity_array in Model/Par2.v;
    the directory listing of Model/FS.v (literal prefix and suffix). *)
+From Gopar Require Import Proofs.Par1Clean Proofs.Par2Reader2.
 From Gopar Require Import Model.Base Model.CRC Model.GoPath Model.FS Model.Par2
      Proofs.Par2Facts Proofs.Par2Verify Proofs.Par2Create Proofs.Par2Layout.
 Open Scope N_scope.
@@ -88,3 +89,23 @@ Theorem C06_discovery : forall pre suf fs sched,
   end.
 Proof. intros. unfold io_list, io_init. cbn [io_sched io_n io_fs]. destruct (sched_lookup sched 0); reflexivity. Qed.
 Print Assumptions C06_discovery.
+
+(* HOWEVER THE RECOVERY BLOCKS ARE DISTRIBUTED OVER FILES (Proofs/Par2Reader2.v): two directory layouts whose recovery
+   files are well-formed packet sequences containing, IN TOTAL, the same set of packets - however many files, however
+   named, in whatever order, with whatever duplication and interleaved foreign-set packets - load to the same
+   recovery-block table; blocks_spread_over_files gives the table itself: slot e holds the block of exponent e iff
+   some file contains a recovery packet for e *)
+Theorem C06_blocks_distribution_invariant : forall md5, (forall x, length (md5 x) = 16%nat) ->
+  forall d paths1 ls1 st1 paths2 ls2 st2,
+  io_sched st1 = [] -> io_sched st2 = [] ->
+  Forall2 (fun p l => read_res (io_fs st1) p = Ok (frames md5 l)) paths1 ls1 ->
+  Forall2 (fun p l => read_res (io_fs st2) p = Ok (frames md5 l)) paths2 ls2 ->
+  (forall q, In q (concat ls1) <-> In q (concat ls2)) ->
+  (forall q, In q (concat ls1) -> pkt_ok md5 d q) ->
+  recv_agree (d_setid d) (concat ls1) ->
+  exists acc1 st1' acc2 st2',
+    load_parity md5 d paths1 [] st1 = (Ok acc1, st1') /\
+    load_parity md5 d paths2 [] st2 = (Ok acc2, st2') /\
+    parity_array acc1 = parity_array acc2.
+Proof. exact blocks_distribution_invariant. Qed.
+Print Assumptions C06_blocks_distribution_invariant.
